@@ -5,6 +5,7 @@
 #include <GeographicLib/Georef.hpp>
 #include <GeographicLib/OSGB.hpp>
 #include <GeographicLib/Math.hpp>
+#include <GeographicLib/TransverseMercator.hpp>
 #include <algorithm>
 using namespace GeographicLib; using namespace gv;
 
@@ -34,8 +35,12 @@ static void do_fwd(Codec c, const Args& a) {
   std::string s = "~untouched~";
   std::string e = fwd(c, lat, lon, p, s);
   if (!e.empty()) { emit(e); if (s != "~untouched~") bad("output-modified-on-throw", "Forward threw but changed its output"); if (e != "!E") bad("foreign-exception", e); return; }
-  emit(hs(s));
-  if (std::isnan(lat) || std::isnan(lon)) {
+  // OSGB: the digits beyond 1 m are re-derived at every precision by one rounded multiplication, so the prefix law between two
+  // precisions is decided in Lean together with the exact classification of both codes: emit the code at the next precision too
+  std::string snext = "-";
+  if (c == OS && p >= 0 && p < 11 && !(std::isnan(lat) || std::isnan(lon))) { std::string t2; if (fwd(c, lat, lon, p + 1, t2).empty()) snext = hs(t2); }
+  emit(c == OS ? hs(s) + " " + snext : hs(s));
+  if (std::isnan(lat) || std::isnan(lon) || (c != OS && std::isinf(lon))) {   // an infinite longitude is normalised to NaN
     double x, y; int q; std::string e2 = rev(c, s, x, y, q, true);
     if (!e2.empty() || !std::isnan(x) || !std::isnan(y)) bad("invalid-roundtrip", "NaN position -> " + s + " does not decode to NaN");
     return;
@@ -44,7 +49,7 @@ static void do_fwd(Codec c, const Args& a) {
   for (char ch : s) if (ch == 0 || !std::strchr(alphabet[c], ch)) { bad("alphabet", "character outside the scheme's alphabet in output " + hs(s)); break; }
   // prefix law
   int pc = std::max(pmin(c), std::min(pmax(c), p)); if (c == GE && pc == 1) pc = 2;
-  if (pc < pmax(c)) {
+  if (pc < pmax(c) && c != OS) {
     std::string s2; int p2 = pc + 1; if (c == GE && p2 == 1) p2 = 2;
     if (fwd(c, lat, lon, p2, s2).empty()) {
       // Georef/OSGB interleave x and y digits: compare component-wise
@@ -113,6 +118,121 @@ static void do_rev(Codec c, const Args& a) {
 REG4(fwd, do_fwd)
 REG4(rev, do_rev)
 
+// ---- resolution / precision helpers of the headers ----------------------------------------------------------------------------
+static Reg r_gh_res("geohash_res", [](const Args& a) {
+  int len = std::atoi(a[0].c_str());
+  double la = Geohash::LatitudeResolution(len), lo_ = Geohash::LongitudeResolution(len); int d = Geohash::DecimalPrecision(len);
+  emit(hx(la) + " " + hx(lo_) + " " + std::to_string(d));
+  if (!(la > 0 && lo_ > 0)) bad("resolution-positive", "non-positive resolution");
+  if (!(Geohash::LatitudeResolution(len + 1) <= la && Geohash::LongitudeResolution(len + 1) <= lo_)) bad("resolution-monotone", "resolution increases with the length");
+  // the resolution is the size of the cell of a hash of that length (Reverse: 2 (centre - corner)), lengths are clamped to [0, 18]
+  int lc = std::max(0, std::min(18, len));
+  std::string s; Geohash::Forward(12.25, 33.75, lc, s);
+  double c1, c2, s1, s2; int q; Geohash::Reverse(s, c1, c2, q, true); Geohash::Reverse(s, s1, s2, q, false);
+  if (2 * (c1 - s1) != la || 2 * (c2 - s2) != lo_) bad("resolution-is-cell-size", "resolution differs from the extent of the decoded cell of " + s);
+  // DecimalPrecision: 10^-d <= latitude resolution < 10^(1-d)
+  long double r = la, lo10 = std::pow(10.0L, -d), hi10 = std::pow(10.0L, 1 - d);
+  if (!(lo10 * (1 - 1e-15L) <= r && r < hi10)) bad("decimal-precision", "10^-d <= LatitudeResolution < 10^(1-d) fails for d = " + std::to_string(d));
+  // mutual consistency: the length needed for this resolution is this length
+  if (Geohash::GeohashLength(lo_) != lc || Geohash::GeohashLength(la, lo_) != lc) bad("length-of-resolution", "GeohashLength(Resolution(len)) != len");
+});
+static Reg r_gh_len("geohash_len", [](const Args& a) {
+  double res = unhx(a[0]); int L = Geohash::GeohashLength(res);
+  emit(std::to_string(L));
+  if (L < 0 || L > 18) bad("length-range", "GeohashLength outside [0, 18]");
+  if (L < 18 && !(Geohash::LongitudeResolution(L) <= std::fabs(res))) bad("length-sufficient", "resolution of the returned length exceeds the request");
+  if (L > 0 && L <= 18 && Geohash::LongitudeResolution(L - 1) <= std::fabs(res)) bad("length-minimal", "a shorter hash already meets the requested resolution");
+});
+static Reg r_gh_len2("geohash_len2", [](const Args& a) {
+  double r1 = unhx(a[0]), r2 = unhx(a[1]); int L = Geohash::GeohashLength(r1, r2);
+  emit(std::to_string(L));
+  auto okl = [&](int l) { return Geohash::LatitudeResolution(l) <= std::fabs(r1) && Geohash::LongitudeResolution(l) <= std::fabs(r2); };
+  if (L < 0 || L > 18) bad("length-range", "GeohashLength outside [0, 18]");
+  if (L < 18 && !okl(L)) bad("length-sufficient", "resolution of the returned length exceeds the request");
+  if (L > 0 && L <= 18 && okl(L - 1)) bad("length-minimal", "a shorter hash already meets the requested resolutions");
+});
+template<class G> static void res_op(Codec c, const Args& a) {
+  int p = std::atoi(a[0].c_str()); double r = G::Resolution(p);
+  emit(hx(r));
+  if (!(r > 0)) bad("resolution-positive", "non-positive resolution");
+  if (!(G::Resolution(p + 1) <= r)) bad("resolution-monotone", "resolution increases with the precision");
+  // the resolution is the extent of a cell at that precision (cell with its south-west corner at the origin: corner 0, centre r/2)
+  int pc = std::max(pmin(c), std::min(pmax(c), p)); if (c == GE && pc == 1) pc = 2;
+  {
+    std::string s; fwd(c, 1e-12, 1e-12, pc, s);
+    double c1, c2, s1, s2; int q; rev(c, s, c1, c2, q, true); rev(c, s, s1, s2, q, false);
+    if (!(s1 == 0 && s2 == 0 && std::fabs(2 * c1 - r) <= ulp(r) && std::fabs(2 * c2 - r) <= ulp(r)))
+      bad("resolution-is-cell-size", "resolution differs from the extent of the decoded cell of " + s);
+  }
+  if (G::Precision(r) != (c == GE ? std::max(0, pc) : pc)) bad("precision-of-resolution", "Precision(Resolution(prec)) != prec");
+}
+template<class G> static void prec_op(Codec c, const Args& a) {
+  double res = unhx(a[0]); int P = G::Precision(res);
+  emit(std::to_string(P));
+  int lo_ = 0, hi = pmax(c);
+  if (P < lo_ || P > hi || (c == GE && P == 1)) bad("precision-range", "Precision outside the documented range");
+  if (P < hi && !(G::Resolution(P) <= std::fabs(res))) bad("precision-sufficient", "resolution of the returned precision exceeds the request");
+  int prev = (c == GE && P == 2) ? 0 : P - 1;
+  if (P > lo_ && P <= hi && G::Resolution(prev) <= std::fabs(res)) bad("precision-minimal", "a lower precision already meets the requested resolution");
+}
+static Reg r_ga_res("gars_res", [](const Args& a) { res_op<GARS>(GA, a); });
+static Reg r_ge_res("georef_res", [](const Args& a) { res_op<Georef>(GE, a); });
+static Reg r_ga_prec("gars_prec", [](const Args& a) { prec_op<GARS>(GA, a); });
+static Reg r_ge_prec("georef_prec", [](const Args& a) { prec_op<Georef>(GE, a); });
+
+// ---- OSGB::Forward / Reverse: the transverse Mercator wrapper ------------------------------------------------------------------
+static const TransverseMercator& osgb_tm() {
+  static const TransverseMercator tm(OSGB::EquatorialRadius(), OSGB::Flattening(), OSGB::CentralScale());
+  return tm;
+}
+static Reg r_os_tmf("osgb_tm_fwd", [](const Args& a) {
+  double lat = unhx(a[0]), lon = unhx(a[1]);
+  double x = 1.5, y = 2.5, g = 3.5, k = 4.5, x2 = 5.5, y2 = 6.5, tx, ty, tg, tk;
+  std::string e = guarded([&] { OSGB::Forward(lat, lon, x, y, g, k); OSGB::Forward(lat, lon, x2, y2); });
+  if (!e.empty()) { emit(e); bad("foreign-exception", "OSGB::Forward threw"); return; }
+  osgb_tm().Forward(OSGB::OriginLongitude(), lat, lon, tx, ty, tg, tk);
+  emit(hx(x) + " " + hx(y) + " " + hx(g) + " " + hx(k) + " " + hx(tx) + " " + hx(ty) + " " + hx(tg) + " " + hx(tk) + " " + hx(OSGB::computenorthoffset()));
+  if (bits(x) != bits(x2) || bits(y) != bits(y2)) bad("overloads-agree", "Forward(lat, lon, x, y) differs from the 6-argument form");
+  if (std::isfinite(x) && std::isfinite(y) && std::fabs(lat) < 89.9 && std::fabs(Math::AngDiff(-2.0, lon)) < 60) {
+    double la2, lo2, g2, k2, la3, lo3; OSGB::Reverse(x, y, la2, lo2, g2, k2); OSGB::Reverse(x, y, la3, lo3);
+    if (bits(la2) != bits(la3) || bits(lo2) != bits(lo3)) bad("overloads-agree", "Reverse(x, y, lat, lon) differs from the 6-argument form");
+    // documented accuracy of the series TM: 5 nm (x4) within 35 deg of the central meridian; expressed in degrees (1 deg > 60 km)
+    double tolm = std::fabs(Math::AngDiff(-2.0, lon)) < 35 ? 20e-9 : 1e-3, told = tolm / 60000;
+    if (!(std::fabs(la2 - lat) <= told && std::fabs(Math::AngDiff(lo2, lon)) * std::cos(lat * Math::degree()) <= told))
+      bad("tm-roundtrip", "Reverse(Forward(lat, lon)) off by more than 4 x 5 nm");
+  }
+});
+static Reg r_os_tmr("osgb_tm_rev", [](const Args& a) {
+  double x = unhx(a[0]), y = unhx(a[1]);
+  double lat = 1.5, lon = 2.5, g = 3.5, k = 4.5, tla, tlo, tg, tk;
+  std::string e = guarded([&] { OSGB::Reverse(x, y, lat, lon, g, k); });
+  if (!e.empty()) { emit(e); bad("foreign-exception", "OSGB::Reverse threw"); return; }
+  double no = OSGB::computenorthoffset();
+  osgb_tm().Reverse(OSGB::OriginLongitude(), x - OSGB::FalseEasting(), y - no, tla, tlo, tg, tk);
+  emit(hx(lat) + " " + hx(lon) + " " + hx(g) + " " + hx(k) + " " + hx(tla) + " " + hx(tlo) + " " + hx(tg) + " " + hx(tk));
+});
+static Reg r_os_const("osgb_consts", [](const Args&) {
+  double a = OSGB::EquatorialRadius(), f = OSGB::Flattening(), k0 = OSGB::CentralScale(), la0 = OSGB::OriginLatitude(), lo0 = OSGB::OriginLongitude(),
+    fn = OSGB::FalseNorthing(), fe = OSGB::FalseEasting(), no = OSGB::computenorthoffset(), x0, y0;
+  osgb_tm().Forward(0.0, la0, 0.0, x0, y0);
+  emit(hx(a) + " " + hx(f) + " " + hx(k0) + " " + hx(la0) + " " + hx(lo0) + " " + hx(fn) + " " + hx(fe) + " " + hx(no) + " " + hx(y0) + " " +
+       hx(OSGB::OSGBTM().EquatorialRadius()) + " " + hx(OSGB::OSGBTM().Flattening()) + " " + hx(OSGB::OSGBTM().CentralScale()));
+  // defining expressions evaluated independently in long double (OS: log10(metres per foot) = 0.48401603 - 1, log10 F0 = 9.9998268 - 10)
+  long double al = std::pow(10.0L, (48401603.0L - 100000000.0L) / 100000000.0L) * 20923713.0L, kl = std::pow(10.0L, (9998268.0L - 10000000.0L) / 10000000.0L);
+  if (!(std::fabs((long double)a - al) <= 2 * ulp(a))) bad("osgb-constant", "EquatorialRadius differs from 20923713 ft x 10^(0.48401603-1) m/ft");
+  if (!(std::fabs((long double)k0 - kl) <= 2 * ulp(k0))) bad("osgb-constant", "CentralScale differs from 10^(9.9998268-10)");
+  // the published decimal values (OS, A guide to coordinate systems in Great Britain): a = 6377563.396 m, b = 6356256.909 m, F0 = 0.9996012717
+  if (!(std::fabs(a - 6377563.396) < 5e-4)) bad("osgb-constant", "EquatorialRadius is not 6377563.396 m to the published digits");
+  if (!(std::fabs(a * (1 - f) - 6356256.909) < 1e-3)) bad("osgb-constant", "polar radius is not 6356256.909 m to the published digits");
+  if (!(std::fabs(k0 - 0.9996012717) < 1e-10)) bad("osgb-constant", "CentralScale is not 0.9996012717 to the published digits");
+  if (!(la0 == 49 && lo0 == -2 && fn == -100000 && fe == 400000)) bad("osgb-constant", "true origin 49N 2W / false origin (400000, -100000)");
+  // the true origin maps to the false origin; the published worked example (52d39'27.2531\"N 1d43'4.5177\"E -> 651409.903 E, 313177.270 N)
+  double x, y; OSGB::Forward(la0, lo0, x, y);
+  if (!(std::fabs(x - fe) <= 1e-9 && std::fabs(y - fn) <= 1e-8)) bad("true-origin-maps-to-false-origin", "Forward(49, -2) != (400000, -100000)");
+  OSGB::Forward(52 + 39 / 60.0 + 27.2531 / 3600, 1 + 43 / 60.0 + 4.5177 / 3600, x, y);
+  if (!(std::fabs(x - 651409.903) <= 6e-3 && std::fabs(y - 313177.270) <= 6e-3)) bad("published-example", "OS worked example: got " + std::to_string(x) + ", " + std::to_string(y));
+});
+
 static double edge_value(Rng& r, Codec c, bool lonp) {
   // a value at / next to a cell edge of the scheme
   double v;
@@ -132,30 +252,69 @@ void gv::generate(const std::string& tier, uint64_t seed) {
   Rng r(seed * 7919 + 18);
   long n = tier == "thorough" ? 60000 : 6000;
   std::vector<std::string> pool[4];
+  // the helper functions and the OSGB constants: every length / precision around the documented range, on every run
+  run("osgb_consts", {}); stratum("osgb-constants");
+  for (int len = -3; len <= 22; ++len) { run("geohash_res", {std::to_string(len)}); stratum("helpers-resolution"); }
+  for (int p = -3; p <= 14; ++p) { run("gars_res", {std::to_string(p)}); run("georef_res", {std::to_string(p)}); stratum("helpers-resolution"); }
+  for (long i = 0; i < n / 20; ++i) {
+    // requested resolutions: exactly the resolution of a length / precision, one ulp either side, random, zero, negative, non-finite
+    int k = r.irange(0, 9);
+    auto pert = [&](double v) { int d = r.irange(-2, 2); v = d > 0 ? nextup(v, d) : d < 0 ? nextdn(v, -d) : v; return r.coin() ? v : -v; };
+    double special = r.pick(std::vector<double>{0, -0.0, INFINITY, -INFINITY, NAN, 1e-300, 1e300, 360, 180, 15, 1});
+    double g1 = k < 5 ? pert(Geohash::LongitudeResolution(r.irange(0, 19))) : k < 8 ? std::ldexp(r.range(1, 2), r.irange(-40, 10)) : special;
+    double g2 = k < 5 ? pert(Geohash::LatitudeResolution(r.irange(0, 19))) : k < 8 ? std::ldexp(r.range(1, 2), r.irange(-40, 10)) : special;
+    run("geohash_len", {hx(g1)}); run("geohash_len2", {hx(g2), hx(g1)});
+    run("gars_prec", {hx(k < 5 ? pert(GARS::Resolution(r.irange(-1, 3))) : k < 8 ? std::ldexp(r.range(1, 2), r.irange(-8, 3)) : special)});
+    run("georef_prec", {hx(k < 5 ? pert(Georef::Resolution(r.irange(-2, 12))) : k < 8 ? std::ldexp(r.range(1, 2), r.irange(-45, 6)) : special)});
+    stratum(k < 5 ? "helpers-precision-edge" : k < 8 ? "helpers-precision-random" : "helpers-precision-special");
+    // OSGB::Forward / Reverse: Great Britain, the whole grid, the central meridian, the true origin, poles, far longitudes, NaN
+    int m = r.irange(0, 9);
+    double lat = m < 6 ? r.range(49, 61) : m < 8 ? r.range(-90, 90) : r.pick(std::vector<double>{49, 90, -90, 0, NAN, 52.657570305555555});
+    double lon = m < 6 ? r.range(-9, 3) : m < 8 ? r.range(-180, 180) : r.pick(std::vector<double>{-2, 178, 88, 358, -362, 180, NAN, 1.7179215833333333});
+    run("osgb_tm_fwd", {hx(lat), hx(lon)});
+    double x = m < 7 ? r.range(-1e6, 1.5e6) : r.pick(std::vector<double>{400000, 0, -0.0, 651409.903, NAN, 1e7}), y = m < 7 ? r.range(-5e5, 2e6) : r.pick(std::vector<double>{-100000, 0, 313177.27, NAN, 9e6});
+    run("osgb_tm_rev", {hx(x), hx(y)});
+    stratum(m < 6 ? "osgb-tm-britain" : m < 8 ? "osgb-tm-world" : "osgb-tm-special");
+  }
   for (long i = 0; i < n; ++i) {
     Codec c = Codec(i % 4);
     double lat, lon;
-    int k = r.irange(0, 9);
+    int k = r.irange(0, 11);
     if (c == OS) {
       lat = k < 5 ? edge_value(r, c, true) : r.range(-1e6, 1.5e6); lon = k < 5 ? edge_value(r, c, false) : r.range(-5e5, 2e6);
       if (k == 9) { lat = r.pick(std::vector<double>{-1e6, 1.5e6, nextdn(1.5e6), 0, -0.0, NAN, 1e7}); }
       if (k == 8) { lon = r.pick(std::vector<double>{-5e5, 2e6, nextdn(2e6), 0, -0.0, NAN, -1e7}); }
+      if (k == 10) {
+        // tile -1 (x + 10^5 is a rounded addition for -5*10^4 < x < 0), tiny negatives down to the subnormals, the carry threshold -2^-37 +- ulps (finding F74)
+        auto neg = [&]() { int t = r.irange(0, 3);
+          return t == 0 ? -std::ldexp(r.range(1, 2), r.irange(-1074, -30)) : t == 1 ? -nextup(std::ldexp(1.0, -37 - r.irange(0, 1)), r.irange(-2, 2)) :
+                 t == 2 ? -r.range(0, 5e4) : nextup(-std::floor(r.range(0, 5e4) * 1e3) / 1e3, r.irange(-2, 2)); };
+        if (r.coin()) lat = neg(); else lon = neg();
+        if (r.irange(0, 3) == 0) { lat = neg(); lon = neg(); }
+      }
+      if (k == 11) {
+        // tile 0, small coordinates: the digits beyond 1 m come from one rounded multiplication frac * 10^(p-5) (sliver class F2)
+        auto sm = [&]() { int j = r.irange(1, 6); double v = r.irange(0, 999999) / std::pow(10.0, j); return nextup(v, r.irange(-2, 2)) + (r.coin() ? 0 : r.irange(0, 9)); };
+        if (r.coin()) lat = std::fabs(sm()); else lon = std::fabs(sm());
+      }
     } else {
       lat = k < 5 ? edge_value(r, c, false) : r.range(-90, 90); lon = k < 5 ? edge_value(r, c, true) : r.range(-180, 180);
       if (k == 9) lat = r.pick(std::vector<double>{90, -90, nextdn(90), 0, -0.0, NAN, 91, -90.0000001});
-      if (k == 8) lon = r.pick(std::vector<double>{180, -180, 540, -540, 360, 1e17, nextdn(180), nextup(-180), NAN, 179.99999});
+      if (k == 8) lon = r.pick(std::vector<double>{180, -180, 540, -540, 360, 1e17, nextdn(180), nextup(-180), NAN, 179.99999, INFINITY, -INFINITY});
       if (k == 7) lon += 360.0 * r.irange(-3, 3);
+      if (k == 10) { lon = (r.coin() ? 180.0 : -180.0) + 360.0 * r.irange(-4, 4); if (r.coin()) lat = r.coin() ? 90 : -90; }   // lon = 180 + 360 k exactly, poles
+      if (k == 11) { lat = r.coin() ? 90 : -90; }
       if (std::fabs(lat) > 90 && k != 9) lat = std::fmod(lat, 90);
     }
     int p = r.irange(pmin(c) - 1, pmax(c) + 1);
     run(std::string(cname[c]) + "_fwd", {hx(lat), hx(lon), std::to_string(p)});
-    stratum(std::string(cname[c]) + (k < 5 ? "-edge" : k >= 7 ? "-special" : "-uniform"));
+    stratum(std::string(cname[c]) + (k < 5 ? "-edge" : k >= 10 ? "-special2" : k >= 7 ? "-special" : "-uniform"));
     std::string s;
     if (fwd(c, lat, lon, p, s).empty()) { pool[c].push_back(s); if (i < 8) sample(current_op() + " -> " + s); }
     // decoder inputs: valid codes (random case), mutations, random alphabet strings
     std::string t;
-    int m = r.irange(0, 9);
-    if (!pool[c].empty() && m < 7) {
+    int m = r.irange(0, 12);
+    if (!pool[c].empty() && (m < 7 || m >= 10)) {
       t = r.pick(pool[c]);
       if (m >= 1 && m <= 2) t = r.coin() ? lo(t) : up(t);
       if (m == 3 && !t.empty()) t[r.irange(0, int(t.size()) - 1)] = r.pick(std::vector<char>{'I', 'O', 'A', 'a', 'Z', '9', '0', '6', '7', ' ', '\0', '-', char(0xe9), 'i', 'l'});
@@ -163,13 +322,32 @@ void gv::generate(const std::string& tier, uint64_t seed) {
       if (m == 5) t.insert(r.irange(0, int(t.size())), 1, alphabet[c][r.irange(0, int(std::strlen(alphabet[c])) - 1)]);
       if (m == 6 && c == OS) t.insert(r.irange(0, int(t.size())), 1, ' ');
       if (m == 6 && c != OS && t.size() > 5) t[r.irange(4, int(t.size()) - 1)] = char('0' + r.irange(5, 9));
+      if (m == 10) {
+        // leading / trailing junk: white space of every kind, NUL, punctuation, a letter, a high-bit byte
+        std::string junk(1, r.pick(std::vector<char>{' ', '\t', '\n', '\v', '\f', '\r', '\0', '-', '.', 'x', 'Q', char(0xa0), char(0xff)}));
+        int w = r.irange(0, 2); if (w != 1) t = junk + t; if (w != 0) t += junk;
+      }
+      if (m == 11) {
+        // maximum and over-maximum lengths: the code of maximal precision, then 1..4 more characters of the digit alphabet
+        std::string mx; fwd(c, c == OS ? 123456.789012 : 12.3456789, c == OS ? 654321.098765 : 34.56789012, pmax(c), mx);
+        t = r.coin() ? lo(mx) : mx;
+        int extra = r.irange(0, 4);
+        for (int j = 0; j < extra; ++j) t += c == GH ? alphabet[c][r.irange(0, 31)] : char('0' + r.irange(0, 9));
+        if (c == OS && r.coin()) for (int j = 0, ns = r.irange(1, 30); j < ns; ++j) t.insert(r.irange(0, int(t.size())), 1, r.pick(std::vector<char>{' ', '\t', '\n'}));
+      }
+      if (m == 12 && c == OS) {
+        // OSGB: white space anywhere (also between the letters), lower case, "IN" prefix forms
+        for (int j = 0, ns = r.irange(1, 6); j < ns; ++j) t.insert(r.irange(0, int(t.size())), 1, r.pick(std::vector<char>{' ', '\t', '\n', '\v', '\f', '\r'}));
+        if (r.irange(0, 3) == 0) t = r.pick(std::vector<std::string>{"IN", "in", "In", "iN12", "I N", " IN", "INVALID", "IN\0"}) + (r.coin() ? t : "");
+        if (r.coin()) t = lo(t);
+      }
     } else {
-      int len = r.irange(0, c == GH ? 20 : c == GA ? 8 : 26);
+      int len = r.irange(0, c == GH ? 22 : c == GA ? 9 : 30);
       for (int j = 0; j < len; ++j) t += alphabet[c][r.irange(0, int(std::strlen(alphabet[c])) - 1)];
-      if (m == 9) t = r.pick(std::vector<std::string>{"INVALID", "invalid", "INV", "nan", "NAN", "IN", "", "in1234"});
+      if (m == 9) t = r.pick(std::vector<std::string>{"INVALID", "invalid", "INV", "nan", "NAN", "IN", "", "in1234", "iNvAlId", "NaN", "inv", "Nan123456789012345678", "INVX", "NA"});
     }
     run(std::string(cname[c]) + "_rev", {hs(t), r.coin() ? "1" : "0"});
-    stratum(std::string(cname[c]) + "-dec-" + (m < 3 ? "valid" : m < 7 ? "mutated" : "random"));
+    stratum(std::string(cname[c]) + "-dec-" + (m < 3 || (m == 12 && c != OS) ? "valid" : m < 7 ? "mutated" : m < 10 ? "random" : m == 10 ? "junk" : m == 11 ? "maxlen" : "spaces"));
   }
   if (tier == "thorough") {
     // exhaustive low precision: all GARS cells to prec 1 on a lattice of interior points, all georef degree cells
@@ -179,6 +357,15 @@ void gv::generate(const std::string& tier, uint64_t seed) {
     }
     for (int ilon = 0; ilon < 360; ++ilon) for (int ilat = 0; ilat < 180; ++ilat)
       run("georef_fwd", {hx(-90 + ilat + 0.25), hx(-180 + ilon + 0.75), std::to_string((ilon * 7 + ilat) % 13 - 1)});
+    // all 25 x 25 OSGB letter pairs (both cases) at 100 km and 10 km, and all 24 x 12 Georef tiles, through the decoders
+    const char* L = "ABCDEFGHIJKLMNOPQRSTUVWXYZ";
+    for (int i = 0; i < 26; ++i) for (int j = 0; j < 26; ++j) for (int cs = 0; cs < 2; ++cs) {
+      std::string t; t += char(cs ? std::tolower(L[i]) : L[i]); t += L[j];
+      run("osgb_rev", {hs(t), "1"}); run("osgb_rev", {hs(t + "37"), "0"}); run("georef_rev", {hs(t), "1"}); run("georef_rev", {hs(t + "GH"), "0"});
+    }
+    // every OSGB 100 km square at every precision: a point inside, encoded
+    for (int ix = -10; ix < 15; ++ix) for (int iy = -5; iy < 20; ++iy)
+      run("osgb_fwd", {hx(ix * 1e5 + 12345.678901), hx(iy * 1e5 + 98765.432109), std::to_string((ix + iy + 15) % 12)});
   }
 }
 int main(int argc, char** argv) { return gv::main_(argc, argv); }
